@@ -273,6 +273,75 @@ CORPUS = [
 ]
 
 
+def edge_cases(g, k):
+    """K only (the model against the implementation, no separate expectation): entry conditions of `get_data` -
+    empty / falsy documents, a path bound to a document of its own (which then wins over a truthy argument,
+    while a falsy bound document falls back to the argument), no document at all - and part constructors given
+    a condition of the wrong kind, or mixing kinds, for `key=` / `index=` / `value=`"""
+    r = g.r
+    out = []
+    for _ in range(k):
+        x = r.random()
+        if x < 0.6:
+            parts = [terms.gen_part(g, r.choice([0.5, 1.0])) for _ in range(r.choice([0, 1, 1, 2]))]
+            try:
+                objs = [p[1] if p[0] == "prim" else terms.build_part(p) for p in parts]
+            except TypeError:
+                continue
+            doc = gen_doc_for_parts(g, parts)
+            other = gen_doc_for_parts(g, parts)
+            src = r.choice([None, doc, doc, {}, [], other])
+            arg = r.choice([None, {}, [], doc, other, other, 0, "", "text", 5])
+            po = enc.outcome(lambda: DP.DataPath(*objs, source_data=src) if src is not None else DP.DataPath(*objs))
+            if po[0] != "ok":
+                continue
+            path = po[1]
+            rp = r.random() < 0.5
+            c = Case("get_entry", {"parts": [terms.part_desc(p) for p in parts], "source": None if src is None else enc.enc_val(src),
+                                   "arg": None if arg is None else enc.enc_val(arg), "return_paths": rp})
+            c.py = ("from valida.conditions import *\nfrom valida.datapath import *\nimport pathlib\n"
+                    f"print(DataPath({', '.join(terms.part_py(p) for p in parts)}{', ' if parts else ''}source_data={terms.repr_py(src)})"
+                    f".get_data({terms.repr_py(arg)}, return_paths={rp}))")
+            impl = enc.outcome(lambda: enc_result(path.get_data(arg, return_paths=rp)))
+            try:
+                c.ask(["get", enc.enc_path(path), None if arg is None else enc.enc_val(arg), rp], impl, "get")
+            except enc.Unencodable:
+                continue
+            c.features.add(("entry", src is None, type(arg).__name__, bool(arg)))
+            out.append(c)
+        else:
+            # a part whose key / index / value condition is of another kind, or a combination mixing kinds
+            kind = r.choice(["map", "list", "molv"])
+            field = r.choice(["key", "index", "value"])
+            other_kinds = [q for q in ("key", "index", "value") if q != field]
+            wrong = r.choice(other_kinds)
+            tree = terms.gen_leaf(g, wrong, hostile_p=0.0)
+            if r.random() < 0.5:
+                right = terms.gen_leaf(g, field, hostile_p=0.0)
+                pair = [tree, right]
+                r.shuffle(pair)
+                tree = ("bin", r.choice(["and", "or"]), pair[0], pair[1])
+            d = {"key": None, "index": None, "value": None, "condition": None, "list_condition": None, "map_condition": None, "label": None}
+            d[field] = ("c", tree)
+            p = (kind, d)
+            try:
+                terms.build_tree(tree)
+            except TypeError:
+                continue            # key and index conditions cannot be combined at all
+            c = Case("mkpart_kind", {"part": terms.part_desc(p)})
+            c.py = f"from valida.conditions import *\nfrom valida.datapath import *\nimport pathlib\nprint({terms.part_py(p)})"
+            o = enc.outcome(lambda: terms.build_part(p))
+            req = ["mkpart", kind, terms_spec(d["key"]), terms_spec(d["index"]), terms_spec(d["value"]),
+                   terms_cond(d["list_condition"]), terms_cond(d["map_condition"]), terms_cond(d["condition"]), None]
+            try:
+                c.ask(req, ["ok", enc.enc_part(o[1])] if o[0] == "ok" else o, "mkpart")
+            except enc.Unencodable:
+                continue
+            c.features.add(("wrong-kind", kind, field, wrong, tree[0]))
+            out.append(c)
+    return out
+
+
 def generate(rng, n, tier, modifiers=False):
     g = Gen(rng, pct_strings=False, max_depth=3 if tier == "quick" else 4)
     cases = []
@@ -283,6 +352,8 @@ def generate(rng, n, tier, modifiers=False):
                     cases.append(make_case(parts, doc, dn, mn, "dm"))
         else:
             cases.append(make_case(parts, doc))
+    if not modifiers:
+        cases.extend(edge_cases(g, max(30, n // 12)))
     maxlen = 4 if tier == "quick" else 6
     while len(cases) < n:
         k = rng.choice([0, 1, 1, 2, 2, 2, 3, 3] + list(range(4, maxlen + 1)))
